@@ -20,8 +20,10 @@ import (
 	"strconv"
 	"strings"
 	"sync"
+	"sync/atomic"
 	"testing"
 	"testing/synctest"
+	"time"
 
 	"pgregory.net/rapid"
 )
@@ -69,6 +71,11 @@ type Prop[C any] struct {
 	// MarkCurrent writes the case to $VERIF_OUT.current before running it, so
 	// that the driver can attribute a process death to it.
 	MarkCurrent bool
+	// DeadlockIsViolation: when a case stops making progress because goroutines of the code under
+	// test are blocked on each other inside the bubble (on a mutex, so that the virtual clock cannot
+	// advance either), report that as a violation of this property instead of hanging until the
+	// shard's deadline. See deadlockWatch.
+	DeadlockIsViolation bool
 }
 
 type knownFinding struct {
@@ -305,6 +312,62 @@ func blockedGoroutines() string {
 	return strings.Join(out, "\n\n")
 }
 
+// deadlockWatch runs outside every bubble. A bubble in which some goroutine is blocked on a
+// sync.Mutex (not a durable block) while all the others are blocked too can never continue: nothing
+// is runnable, and the virtual clock does not advance either. That state is recognised from two
+// goroutine dumps taken seconds apart: the same goroutines, none running or runnable, in the same
+// states, at least one of them of the code under test blocked non-durably. Scheduling delays on a
+// busy machine cannot produce it (a goroutine waiting for a CPU is "runnable").
+func deadlockWatch(started *atomic.Int64, report func(detail string)) {
+	snapshot := func() (sig string, stuck bool, detail string) {
+		buf := make([]byte, 4<<20)
+		n := runtime.Stack(buf, true)
+		var sigs, shown []string
+		nondurable := false
+		for _, g := range strings.Split(string(buf[:n]), "\n\n") {
+			nl := strings.IndexByte(g, '\n')
+			if nl < 0 || !strings.Contains(g[:nl], "synctest bubble") {
+				continue
+			}
+			head := g[:nl]
+			if strings.Contains(head, "[running") || strings.Contains(head, "[runnable") || strings.Contains(head, "[syscall") {
+				return "", false, ""
+			}
+			sigs = append(sigs, head[:strings.IndexByte(head, ']')+1])
+			if !strings.Contains(head, "(durable)") && strings.Contains(g, "github.com/energomonitor/bisquitt/") {
+				nondurable = true
+				lines := strings.Split(g, "\n")
+				if len(lines) > 14 {
+					lines = lines[:14]
+				}
+				shown = append(shown, strings.Join(lines, "\n"))
+			}
+		}
+		sort.Strings(sigs)
+		return strings.Join(sigs, ";"), nondurable && len(sigs) > 0, strings.Join(shown, "\n\n")
+	}
+	for {
+		time.Sleep(2 * time.Second)
+		t0 := started.Load()
+		if t0 == 0 || time.Since(time.Unix(0, t0)) < 8*time.Second {
+			continue
+		}
+		s1, stuck1, _ := snapshot()
+		if !stuck1 {
+			continue
+		}
+		time.Sleep(4 * time.Second)
+		if started.Load() != t0 {
+			continue
+		}
+		s2, stuck2, detail := snapshot()
+		if stuck2 && s1 == s2 {
+			report(detail)
+			return
+		}
+	}
+}
+
 // Check runs the property. In replay mode it runs exactly the given cases.
 func Check[C any](t *testing.T, p Prop[C]) {
 	loadKnown()
@@ -332,8 +395,17 @@ func Check[C any](t *testing.T, p Prop[C]) {
 				t.Fatalf("replay %s: case does not decode: %v", path, err)
 			}
 			n := 0
+			var started atomic.Int64
+			if p.DeadlockIsViolation && p.Bubble {
+				go deadlockWatch(&started, func(detail string) {
+					fmt.Printf("REPLAY-VIOLATION property=%s file=%s kind=goroutines-deadlocked the case stopped for good: goroutines of the code under test are blocked on each other\n%s\n", p.ID, path, detail)
+					os.Exit(1)
+				})
+			}
 			for run := 0; run < max(1, rf.Repeat) && n == 0; run++ {
+				started.Store(time.Now().UnixNano())
 				res := runCase(t, &p, c)
+				started.Store(0)
 				for _, v := range res.Violations {
 					if IsKnown(p.ID, v.Kind) {
 						if run == 0 {
@@ -364,10 +436,31 @@ func Check[C any](t *testing.T, p Prop[C]) {
 		current = out + ".current"
 	}
 
+	var caseStarted atomic.Int64
+	var curCase atomic.Value
+	if p.DeadlockIsViolation && p.Bubble {
+		go deadlockWatch(&caseStarted, func(detail string) {
+			v := V("goroutines-deadlocked", "the case stopped for good: goroutines of the code under test are blocked on each other (nothing is runnable, the virtual clock cannot advance)\n%s", detail)
+			if !IsKnown(p.ID, v.Kind) {
+				if c, ok := curCase.Load().(C); ok {
+					writeReplay(p.ID, p.Name, c, &v, replayOut)
+				}
+				s.mu.Lock()
+				s.Violations++
+				s.mu.Unlock()
+				s.write()
+				fmt.Printf("violates %s: kind=%s %s\n", p.ID, v.Kind, v.Detail)
+				os.Exit(1)
+			}
+		})
+	}
 	one := func(c C, exh bool) *Violation {
 		if current != "" {
 			writeReplay(p.ID, p.Name, c, nil, current)
 		}
+		curCase.Store(c)
+		caseStarted.Store(time.Now().UnixNano())
+		defer caseStarted.Store(0)
 		res := runCase(t, &p, c)
 		s.record(c, func() any { return key(c) }, res, exh)
 		for i := range res.Violations {
